@@ -269,4 +269,147 @@ theorem decode_enc (v : JV) (hw : wf v = true) : decode (enc v) = some v := by
   simp only [List.append_nil] at h
   simp [decode, h]
 
+/-! ### the indented form -/
+
+theorem strip_in_plain (c : Char) (r : List Char) (h1 : c ≠ '"') (h2 : c ≠ '\\') :
+    stripWs true false (c :: r) = c :: stripWs true false r := by
+  simp [stripWs, h1, h2]
+
+theorem strip_in_pair (x : Char) (r : List Char) :
+    stripWs true false ('\\' :: x :: r) = '\\' :: x :: stripWs true false r := by
+  simp [stripWs]
+
+theorem strip_in_hex (k : Nat) (hk : k < 16) (r : List Char) :
+    stripWs true false (hexDigit k :: r) = hexDigit k :: stripWs true false r :=
+  strip_in_plain _ r (hexDigit_plain ⟨k, hk⟩).1 (hexDigit_plain ⟨k, hk⟩).2
+
+theorem strip_in_step (c : Char) (r : List Char) :
+    stripWs true false (escChar c ++ r) = escChar c ++ stripWs true false r := by
+  unfold escChar
+  by_cases h1 : c = '"'
+  · subst h1; simp [strip_in_pair]
+  · by_cases h2 : c = '\\'
+    · subst h2; simp [strip_in_pair]
+    · by_cases h3 : c = '\n'
+      · subst h3; simp [strip_in_pair]
+      · by_cases h4 : c = '\r'
+        · subst h4; simp [strip_in_pair]
+        · by_cases h5 : c = '\t'
+          · subst h5; simp [strip_in_pair]
+          · by_cases h6 : c.toNat = 8
+            · simp [h1, h2, h3, h4, h5, h6, strip_in_pair]
+            · by_cases h7 : c.toNat = 12
+              · simp [h1, h2, h3, h4, h5, h6, h7, strip_in_pair]
+              · simp only [h1, h2, h3, h4, h5, h6, h7, ↓reduceIte]
+                by_cases h8 : needsU c = true
+                · simp only [h8, ↓reduceIte, hex4, List.cons_append, List.nil_append]
+                  rw [strip_in_pair, strip_in_hex _ (Nat.mod_lt _ (by decide)), strip_in_hex _ (Nat.mod_lt _ (by decide)),
+                      strip_in_hex _ (Nat.mod_lt _ (by decide)), strip_in_hex _ (Nat.mod_lt _ (by decide))]
+                · simp only [h8, Bool.false_eq_true, ↓reduceIte, List.singleton_append]
+                  exact strip_in_plain c r h1 h2
+
+theorem strip_in_escape (s rest : List Char) :
+    stripWs true false (escape s ++ '"' :: rest) = escape s ++ '"' :: stripWs false false rest := by
+  induction s with
+  | nil => simp [escape, stripWs]
+  | cons c cs ih =>
+      simp only [escape, List.flatMap_cons, List.append_assoc] at ih ⊢
+      rw [strip_in_step, ih]
+
+theorem strip_out_indent (d : Nat) (r : List Char) : stripWs false false (indent d ++ r) = stripWs false false r := by
+  induction d with
+  | zero => simp [indent]
+  | succ k ih =>
+      simp only [indent, List.replicate_succ, List.flatten_cons, List.cons_append, List.nil_append, List.append_assoc] at ih ⊢
+      simp [stripWs, isWs, ih]
+
+theorem digit_plain (c : Char) (h : isDigit c = true) : c ≠ '"' ∧ isWs c = false := by
+  constructor
+  · intro e; subst e; revert h; decide
+  · simp only [isWs, Bool.or_eq_false_iff, decide_eq_false_iff_not]
+    refine ⟨⟨⟨?_, ?_⟩, ?_⟩, ?_⟩ <;> (intro e; subst e; revert h; decide)
+
+theorem strip_out_digits (ds rest : List Char) (hd : ds.all isDigit = true) :
+    stripWs false false (ds ++ rest) = ds ++ stripWs false false rest := by
+  induction ds with
+  | nil => simp
+  | cons d t ih =>
+      simp only [List.all_cons, Bool.and_eq_true] at hd
+      obtain ⟨h1, h2⟩ := digit_plain d hd.1
+      simp [stripWs, h1, h2, ih hd.2]
+
+theorem strip_out_char (c : Char) (r : List Char) (h1 : c ≠ '"') (h2 : isWs c = false) :
+    stripWs false false (c :: r) = c :: stripWs false false r := by
+  simp [stripWs, h1, h2]
+
+theorem strip_out_nl (r : List Char) : stripWs false false ('\n' :: r) = stripWs false false r := by
+  simp [stripWs, isWs]
+
+theorem strip_out_sp (r : List Char) : stripWs false false (' ' :: r) = stripWs false false r := by
+  simp [stripWs, isWs]
+
+theorem strip_out_quote (r : List Char) : stripWs false false ('"' :: r) = '"' :: stripWs true false r := by
+  simp [stripWs]
+
+mutual
+theorem strip_encIndent : ∀ (v : JV) (d : Nat) (rest : List Char), wf v = true →
+    stripWs false false (encIndent d v ++ rest) = enc v ++ stripWs false false rest
+  | .str s, d, rest, _ => by
+      simp only [encIndent, enc, List.cons_append, List.append_assoc, List.nil_append]
+      rw [strip_out_quote, strip_in_escape]
+  | .num ds, d, rest, hw => by
+      simp only [wf, Bool.and_eq_true] at hw
+      simp only [encIndent, enc]
+      exact strip_out_digits ds rest hw.2
+  | .arr [], d, rest, _ => by
+      simp [encIndent, enc, encElems, strip_out_char]
+      rw [strip_out_char _ _ (by decide) (by decide), strip_out_char _ _ (by decide) (by decide)]
+  | .arr (x :: r), d, rest, hw => by
+      have he := strip_encIndentElems (x :: r) (d + 1) ('\n' :: (indent d ++ ']' :: rest)) (by simpa [wf] using hw)
+      simp only [encIndent, enc, List.cons_append, List.append_assoc, List.nil_append]
+      rw [strip_out_char _ _ (by decide) (by decide), strip_out_nl, he, strip_out_nl, strip_out_indent,
+          strip_out_char _ _ (by decide) (by decide)]
+  | .obj [], d, rest, _ => by
+      simp only [encIndent, enc, encMembers, List.cons_append, List.nil_append]
+      rw [strip_out_char _ _ (by decide) (by decide), strip_out_char _ _ (by decide) (by decide)]
+  | .obj (m :: r), d, rest, hw => by
+      have he := strip_encIndentMembers (m :: r) (d + 1) ('\n' :: (indent d ++ '}' :: rest)) (by simpa [wf] using hw)
+      simp only [encIndent, enc, List.cons_append, List.append_assoc, List.nil_append]
+      rw [strip_out_char _ _ (by decide) (by decide), strip_out_nl, he, strip_out_nl, strip_out_indent,
+          strip_out_char _ _ (by decide) (by decide)]
+theorem strip_encIndentElems : ∀ (xs : List JV) (d : Nat) (rest : List Char), wfElems xs = true →
+    stripWs false false (encIndentElems d xs ++ rest) = encElems xs ++ stripWs false false rest
+  | [], d, rest, _ => by simp [encIndentElems, encElems]
+  | [x], d, rest, hw => by
+      simp only [encIndentElems, encElems, List.append_assoc]
+      rw [strip_out_indent, strip_encIndent x d rest (by simpa [wfElems] using hw)]
+  | x :: y :: r, d, rest, hw => by
+      simp only [wfElems, Bool.and_eq_true] at hw
+      simp only [encIndentElems, encElems, List.append_assoc, List.cons_append]
+      rw [strip_out_indent, strip_encIndent x d _ hw.1, strip_out_char _ _ (by decide) (by decide), strip_out_nl,
+          strip_encIndentElems (y :: r) d rest (by simpa [wfElems] using hw.2)]
+theorem strip_encIndentMembers : ∀ (kvs : List (List Char × JV)) (d : Nat) (rest : List Char), wfMembers kvs = true →
+    stripWs false false (encIndentMembers d kvs ++ rest) = encMembers kvs ++ stripWs false false rest
+  | [], d, rest, _ => by simp [encIndentMembers, encMembers]
+  | [(k, v)], d, rest, hw => by
+      simp only [encIndentMembers, encMembers, List.append_assoc, List.cons_append]
+      rw [strip_out_indent, strip_out_quote, strip_in_escape, strip_out_char _ _ (by decide) (by decide), strip_out_sp,
+          strip_encIndent v d rest (by simpa [wfMembers] using hw)]
+  | (k, v) :: (k2, v2) :: r, d, rest, hw => by
+      simp only [wfMembers, Bool.and_eq_true] at hw
+      simp only [encIndentMembers, encMembers, List.append_assoc, List.cons_append]
+      rw [strip_out_indent, strip_out_quote, strip_in_escape, strip_out_char _ _ (by decide) (by decide), strip_out_sp,
+          strip_encIndent v d _ hw.1, strip_out_char _ _ (by decide) (by decide), strip_out_nl,
+          strip_encIndentMembers ((k2, v2) :: r) d rest (by simpa [wfMembers] using hw.2)]
+end
+
+/-- **indented documents are read back**: `json.MarshalIndent`'s layout, with white space ignored outside string
+    literals, decodes to the document -/
+theorem decodeWs_encIndent (v : JV) (hw : wf v = true) : decodeWs (encIndent 0 v) = some v := by
+  have h := strip_encIndent v 0 [] hw
+  simp only [List.append_nil] at h
+  have h0 : stripWs false false [] = [] := rfl
+  rw [h0, List.append_nil] at h
+  simp [decodeWs, h, decode_enc v hw]
+
 end Cpf.Rules.JsonDoc
